@@ -13,7 +13,8 @@ PROPERTY = "C19"
 LEVEL = "exploration"
 RULE = ("pairs (residue of 1..6 atoms, residue or point) whose centre separation is built from a fractional "
         "separation kept >= 1e-4 away from +-1/2 on every axis plus integer cell offsets in [-4,4] (inside and far "
-        "outside the box); orthorhombic boxes with edges 0.5..20 nm (cubic, rectangular, given as matrix) and "
+        "outside the box); orthorhombic boxes with edges 0.5..20 nm (cubic, rectangular, given as matrix; a quarter with "
+        "whole-number vectors, handed over as float64, integer dtype, Fortran-ordered or read-only array) and "
         "triclinic boxes (lower-triangular, off-diagonal <= 0.4 x diagonal); lattice shifts in [-3,3]^3. "
         "Non-trivial = some box edge != 1 and the separation exceeds half a box edge on some axis. "
         "Distinct = sha1 of the case JSON.")
@@ -36,17 +37,20 @@ def _residue(center, offsets, resid=1):
 def case_strategy(draw):
     rng = np.random.default_rng(draw(gen.SEEDS))
     bk = draw(st.sampled_from(["cubic", "rect", "rect", "unit", "triclinic", "triclinic"]))
+    integral = draw(st.integers(0, 3)) == 0            # whole-number box vectors (may be handed over with an integer dtype)
     if bk == "unit":
         edges = np.ones(3)
     elif bk == "cubic":
-        edges = np.ones(3) * rng.uniform(0.5, 20)
+        edges = np.ones(3) * (float(rng.integers(1, 21)) if integral else rng.uniform(0.5, 20))
     else:
-        edges = rng.uniform(0.5, 20, 3)
+        edges = rng.integers(1, 21, 3).astype(float) if integral else rng.uniform(0.5, 20, 3)
     box = np.diag(edges)
     if bk == "triclinic":
         box[1, 0] = rng.uniform(-0.4, 0.4) * edges[0]
         box[2, 0] = rng.uniform(-0.4, 0.4) * edges[0]
         box[2, 1] = rng.uniform(-0.4, 0.4) * edges[1]
+        if integral:
+            box = np.trunc(box)
     # fractional separation away from the tie at +-1/2
     frac = rng.uniform(-0.5 + 1e-4, 0.5 - 1e-4, 3)
     if draw(st.booleans()):
@@ -67,12 +71,28 @@ def case_strategy(draw):
             "off1": off1.tolist(), "off2": off2.tolist(), "point": n2 == 0,
             "frac": frac.tolist(), "cells": cells.tolist(),
             "shift1": shift1.tolist(), "shift2": shift2.tolist(),
-            "box_as_vector": bool(bk != "triclinic" and draw(st.booleans()))}
+            "box_repr": draw(st.sampled_from(["float", "float", "int", "F", "readonly"]))}
 
 
 def check(case):
     box = np.array(case["box"], float)
     ortho = case["box_kind"] != "triclinic"
+    brepr = case.get("box_repr", "float")
+    if brepr == "int" and not np.array_equal(box, np.round(box)):
+        brepr = "float"
+
+    def box_arg():
+        """The box matrix as the caller may hold it: float64, an integer dtype (whole-number boxes), Fortran order, read-only."""
+        if brepr == "int":
+            return box.astype(np.int64)
+        if brepr == "F":
+            return np.asfortranarray(box.copy())
+        if brepr == "readonly":
+            b = box.copy()
+            b.setflags(write=False)
+            return b
+        return box.copy()
+
     r1 = _residue(case["c1"], case["off1"])
     other_c = np.array(case["c2"], float)
     r2 = other_c.copy() if case["point"] else _residue(case["c2"], case["off2"], resid=2)
@@ -82,7 +102,7 @@ def check(case):
     plain = float(np.linalg.norm(sep))
     tol = 1e-9 * max(1.0, plain)
 
-    d = float(lib("distance", r1.distance_to, r2, box_vects=box.copy()))
+    d = float(lib("distance", r1.distance_to, r2, box_vects=box_arg()))
     d_plain = float(lib("distance", r1.distance_to, r2))
     if not abs(d_plain - plain) <= tol:
         raise PropertyViolation("non-periodic", "distance without box %r != %r" % (d_plain, plain))
@@ -103,10 +123,10 @@ def check(case):
         raise PropertyViolation("inverse-flag", "inv=True gives %.12g, box gives %.12g (box %r)" % (d_inv, d, case["box"]))
     # symmetry
     if not case["point"]:
-        d_sym = float(lib("distance-sym", r2.distance_to, r1, box_vects=box.copy()))
+        d_sym = float(lib("distance-sym", r2.distance_to, r1, box_vects=box_arg()))
         if not abs(d_sym - d) <= tol:
             raise PropertyViolation("symmetric", "d(a,b)=%.12g, d(b,a)=%.12g" % (d, d_sym))
-    d_pt = float(lib("distance-point", r1.distance_to, g2.copy(), box_vects=box.copy()))
+    d_pt = float(lib("distance-point", r1.distance_to, g2.copy(), box_vects=box_arg()))
     if not abs(d_pt - d) <= tol:
         raise PropertyViolation("point-vs-residue", "distance to the centre as a point %.12g != to the residue %.12g" % (d_pt, d))
     # lattice shifts of either argument
@@ -116,7 +136,7 @@ def check(case):
     r2s = (other_c + s2) if case["point"] else _residue(other_c + s2, case["off2"], resid=2)
     tol_s = 1e-9 * max(1.0, plain, float(np.linalg.norm(s1)), float(np.linalg.norm(s2)))
     for nm, a, b in (("first", r1s, r2), ("second", r1, r2s), ("both", r1s, r2s)):
-        ds = float(lib("distance-shift", a.distance_to, b, box_vects=box.copy()))
+        ds = float(lib("distance-shift", a.distance_to, b, box_vects=box_arg()))
         if not abs(ds - d) <= tol_s:
             raise PropertyViolation("lattice-shift", "shifting the %s argument by lattice vectors changes the distance "
                                     "%.12g -> %.12g (box %s)" % (nm, d, ds, case["box_kind"]),
@@ -125,7 +145,8 @@ def check(case):
     fracsep = np.abs(np.array(case["frac"]) + np.array(case["cells"]))
     nt = bool(np.any(np.abs(edges - 1) > 1e-9)) and bool(np.any(fracsep > 0.5))
     return {"nontrivial": nt, "classes": ["box:" + case["box_kind"], "point" if case["point"] else "residue",
-                                          "far" if np.any(np.array(case["cells"]) != 0) else "inside"]}
+                                          "far" if np.any(np.array(case["cells"]) != 0) else "inside",
+                                          "box-repr:" + brepr]}
 
 
 SUBCHECKS = [
